@@ -374,7 +374,7 @@ impl Engine for C17 {
                     let (cfg, prefix) = limit_cfg(&mut w, "var", l, via_config);
                     let kind = *w.pick(&[
                         "literal", "concat", "copy", "in-group", "fwd", "copy-of-g-attr", "copy-of-reuse-attr", "copy-of-for-var", "braced-copy",
-                        "reuse-attr", "reuse-attr-overrides-leaf-attr", "reuse-attr-overrides-group-default",
+                        "reuse-attr", "reuse-attr-overrides-leaf-attr", "reuse-attr-overrides-group-default", "g-attr-direct", "for-var-direct",
                     ]);
                     // templates are evaluated once at definition time with their parameters
                     // still unexpanded ("$label"): keep the limit above such placeholders
@@ -423,6 +423,10 @@ impl Engine for C17 {
                         "reuse-attr-overrides-group-default" => format!(
                             "<specs><g id=\"tv\" label=\"n/a\"><text xy=\"0 0\" text=\"$label\"/></g></specs><reuse href=\"#tv\" label=\"{val}\"/>"
                         ),
+                        // variables which never pass through <var> or <reuse> (known finding: these
+                        // are not held to the limit)
+                        "g-attr-direct" => format!("<g label=\"{val}\"><text xy=\"0 0\" text=\"$label\"/></g>"),
+                        "for-var-direct" => format!("<for data=\"'{val}'\" var=\"x\"><text xy=\"0 0\" text=\"$x\"/></for>"),
                         "braced-copy" => format!("<g label=\"{val}\"><var v=\"${{label}}\"/><text xy=\"0 0\" text=\"$v\"/></g>"),
                         _ => format!("<specs><g id=\"tv\"><text xy=\"0 0\" text=\"$label\"/></g></specs><reuse href=\"#tv\" label=\"{val}\"/>"),
                     };
